@@ -355,3 +355,89 @@ Proof.
   - apply sorted_SS in Hso. inversion Hso; subst. apply sorted_SS. assumption.
   - unfold n_of in *. cbn [nodes set_nodes]. rewrite E in Hc. cbn in Hc. destruct (Nat.leb_spec (ldp l) 1); lia.
 Qed.
+
+(* ================= arrays and inserted blocks ================= *)
+(* a block of cnt nodes [m, m + cnt*step) that meets no node of the list lands in one gap and keeps the list sorted *)
+Lemma block_fits_sorted l k cnt m :
+  sorted (nodes l) -> 0 < nsz l -> (k <= n_of l)%nat ->
+  (k = 0%nat \/ ext l k < m) -> (k = n_of l \/ m < ext l (S k)) ->
+  (forall x, In x (nodes l) -> x < m \/ m + Z.of_nat cnt * nsz l <= x) ->
+  sorted (insert_at (nodes l) k (block_nodes cnt m (nsz l))).
+Proof.
+  intros Hs Hn Hk Hlo Hhi Hfree. apply (insert_sorted _ _ _ m (m + Z.of_nat cnt * nsz l)); try assumption.
+  - destruct Hlo as [->|Hlo]; [left; reflexivity|]. destruct (Nat.eq_dec k 0) as [->|]; [left; reflexivity|]. right. rewrite <- ext_node by (unfold n_of in *; lia). assumption.
+  - destruct Hhi as [->|Hhi]; [left; reflexivity|]. destruct (Nat.eq_dec k (n_of l)) as [->|]; [left; reflexivity|]. right.
+    assert (E : ext l (S k) = nth k (nodes l) 0) by (rewrite ext_node; [f_equal; lia|unfold n_of in *; lia]). rewrite <- E.
+    assert (Hin : In (ext l (S k)) (nodes l)) by (rewrite E; apply nth_In; unfold n_of in *; lia).
+    destruct (Hfree _ Hin); lia.
+  - apply block_nodes_sorted. assumption.
+  - intros x Hx. apply block_nodes_spec in Hx; assumption.
+Qed.
+
+(* releasing an array (deallocate(ptr, n)): every node the array occupied is on the list afterwards, the list stays sorted,
+   the cursor stays inside *)
+Theorem dealloc_array_valid asserts dbl l m bytes : OInv l -> nsz l < bytes ->
+  (forall x, In x (nodes l) -> x < m \/ m + Z.of_nat (nodes_for l bytes) * nsz l <= x) ->
+  exists l', o_dealloc_array asserts dbl l m bytes = Ret l' /\ OInv l' /\
+             (forall x, In x (nodes l') <-> In x (block_nodes (nodes_for l bytes) m (nsz l)) \/ In x (nodes l)) /\
+             n_of l' = (n_of l + nodes_for l bytes)%nat.
+Proof.
+  intros (Hso & Hc & Hp & Hn) Hb Hfree.
+  assert (Hcnt : (1 <= nodes_for l bytes)%nat).
+  { unfold nodes_for. assert (1 <= (bytes + nsz l - 1) / nsz l) by (apply Z.div_le_lower_bound; lia). lia. }
+  assert (Hm : ~ In m (nodes l)). { intros Hin. destruct (Hfree m Hin) as [H|H]; [lia|]. assert (0 < Z.of_nat (nodes_for l bytes) * nsz l) by nia. lia. }
+  assert (Hm' : forall a, (1 <= a <= n_of l)%nat -> ext l a <> m).
+  { intros a Ha E. apply Hm. rewrite <- E, ext_node by assumption. apply nth_In. unfold n_of in *. lia. }
+  destruct (find_pos_correct l m asserts dbl Hso Hp Hm' Hc) as (k & Hk & Hk1 & Hk2 & Hk3).
+  unfold o_dealloc_array. destruct (Z.leb_spec bytes (nsz l)); [lia|]. rewrite Hk. eexists. split; [reflexivity|].
+  set (blk := block_nodes (nodes_for l bytes) m (nsz l)).
+  assert (Lb : length blk = nodes_for l bytes). { unfold blk. generalize (nodes_for l bytes) m. induction n as [|n IH]; intros m0; cbn; [reflexivity|rewrite IH; reflexivity]. }
+  assert (L : length (insert_at (nodes l) k blk) = (n_of l + nodes_for l bytes)%nat).
+  { unfold insert_at. rewrite !app_length, firstn_length, skipn_length, Lb. unfold n_of in *. lia. }
+  unfold OInv. cbn [nodes set_nodes ldp pb pe nsz n_of]. repeat split; try assumption.
+  - apply block_fits_sorted; assumption.
+  - unfold n_of, set_nodes. cbn [nodes]. rewrite L. lia.
+  - unfold insert_at. rewrite !in_app_iff. intros [Hx|[Hx|Hx]]; [right; apply (in_firstn' _ _ k); assumption|left; assumption|right; apply (in_skipn' _ _ k); assumption].
+  - unfold insert_at. rewrite !in_app_iff. intros [Hx|Hx]; [right; left; assumption|].
+    rewrite <- (firstn_skipn k (nodes l)) in Hx. apply in_app_iff in Hx as [Hx|Hx]; [left; assumption|right; right; assumption].
+Qed.
+
+Lemma skipn_skipn' (A : Type) (l : list A) : forall a b, skipn a (skipn b l) = skipn (b + a) l.
+Proof. induction l as [|h t IH]; intros a b; [rewrite !skipn_nil; reflexivity|]. destruct b as [|b]; cbn; [reflexivity|apply IH]. Qed.
+
+(* allocate(n): what is taken is a run of consecutive nodes that were all on the list, and the rest stays sorted *)
+Lemma sorted_remove_middle ns i cnt : sorted ns -> sorted (firstn i ns ++ skipn (i + cnt) ns).
+Proof.
+  intros H. apply sorted_SS. apply sorted_SS in H. rewrite <- (firstn_skipn i ns) in H. apply SS_app in H as (Ha & Hb & Hab).
+  replace (skipn (i + cnt) ns) with (skipn cnt (skipn i ns)) by (apply skipn_skipn').
+  apply SS_app. repeat split; [assumption|apply sorted_SS, sorted_skipn, sorted_SS; assumption|].
+  intros x y Hx Hy. apply Hab; [assumption|apply (in_skipn' _ _ cnt); assumption].
+Qed.
+
+Lemma run_len_le ns step : (run_len ns step <= length ns)%nat.
+Proof. induction ns as [|x tl IH]; cbn; [lia|]. destruct tl as [|y tl']; [cbn; lia|]. destruct (x + step =? y); cbn in *; lia. Qed.
+
+Lemma find_run_bound : forall fuel ns step need idx i, find_run fuel ns step need idx = Some i -> (idx <= i /\ i - idx + need <= length ns)%nat.
+Proof.
+  induction fuel as [|f IH]; intros ns step need idx i H; cbn in H; [discriminate|].
+  destruct ns as [|x tl]; [discriminate|]. set (r := run_len (x :: tl) step) in *.
+  destruct (Nat.leb_spec need r).
+  - injection H as <-. pose proof (run_len_le (x :: tl) step) as Hr. fold r in Hr. lia.
+  - apply IH in H. rewrite skipn_length in H. assert (Hr1 : (1 <= r)%nat). { unfold r. cbn. destruct tl as [|y tl']; [lia|]. destruct (x + step =? y); lia. }
+    pose proof (run_len_le (x :: tl) step) as Hr. fold r in Hr. lia.
+Qed.
+
+Theorem alloc_array_inv l bytes x l' : OInv l -> nsz l < bytes -> o_alloc_array l bytes = Some (x, l') ->
+  sorted (nodes l') /\ In x (nodes l) /\ n_of l' = (n_of l - nodes_for l bytes)%nat /\ (forall y, In y (nodes l') -> In y (nodes l)).
+Proof.
+  intros (Hso & Hc & Hp & Hn) Hb. unfold o_alloc_array. destruct (Z.leb_spec bytes (nsz l)); [lia|].
+  destruct (find_run (S (n_of l)) (nodes l) (nsz l) (nodes_for l bytes) 0) as [i|] eqn:F; [|discriminate].
+  intros Heq. injection Heq as <- <-. apply find_run_bound in F as [_ F]. rewrite Nat.sub_0_r in F.
+  assert (Hcnt : (1 <= nodes_for l bytes)%nat).
+  { unfold nodes_for. assert (1 <= (bytes + nsz l - 1) / nsz l) by (apply Z.div_le_lower_bound; lia). lia. }
+  cbn [nodes set_nodes n_of]. repeat split.
+  - apply sorted_remove_middle. assumption.
+  - apply nth_In. lia.
+  - unfold n_of, set_nodes. cbn [nodes]. rewrite app_length, firstn_length, skipn_length. unfold n_of in *. lia.
+  - intros y Hy. apply in_app_iff in Hy as [Hy|Hy]; [apply (in_firstn' _ _ i); assumption|apply (in_skipn' _ _ (i + nodes_for l bytes)); assumption].
+Qed.
